@@ -607,6 +607,15 @@ def tr_block(stmts, env: Env, k: K) -> list[str]:
             if all(isinstance(b_, ast.Pass) for b_ in body0):
                 return tr_block(rest, env, k)      # a hook that does nothing in the nested class
             raise Unsupported(f"call of {NESTED[nc0[0]]}.{nc0[1]} as a statement")
+    if isinstance(s, ast.Assign) and len(s.targets) == 1 and isinstance(s.targets[0], ast.Tuple) and isinstance(s.value, ast.Call):
+        # X, y = Class.validate_data(self, X, y): the guard hands back the arrays it checked (sklearn's check_X_y returns
+        # them converted: same values, y as a 1-d vector) — on valid data the identity; dropped like the bare guard call
+        f0 = s.value.func
+        if isinstance(f0, ast.Attribute) and isinstance(f0.value, ast.Name) and f0.value.id == env.cls and f0.attr in GUARDS:
+            tg = [t_.id if isinstance(t_, ast.Name) else None for t_ in s.targets[0].elts]
+            ar = [a_.id if isinstance(a_, ast.Name) else None for a_ in s.value.args]
+            if None not in tg and ar[:1] == ["self"] and ar[1:] == tg and not s.value.keywords:
+                return tr_block(rest, env, k)
     if isinstance(s, ast.AnnAssign) and s.value is not None:
         s = ast.Assign(targets=[s.target], value=s.value)
     if isinstance(s, ast.Assign) and len(s.targets) == 1 and is_self_attr(s.targets[0]) in WRITE_ONLY:
